@@ -110,7 +110,7 @@ def lint_statics():
         for n, line in enumerate(open(path), 1):
             m = re.match(r"\s*(?:pub(?:\(crate\))? )?static (?:mut )?(\w+)\s*:", line)
             if m and not line.strip().startswith("//"):
-                mm = re.search(r"Uq<.*magic: (0x[0-9A-Fa-f]+)", line)
+                mm = re.search(r"Uq<.*magic: (0x[0-9A-Fa-f_]+)", line)
                 if not mm:
                     bad.append("%s:%d %s (not wrapped in Uq)" % (os.path.relpath(path, VERIF), n, m.group(1)))
                 elif mm.group(1) in magics:
